@@ -70,6 +70,7 @@ struct Prog {
   int stk_align = 8;                         // alignment of the new_stack() variable
   std::vector<int> arg_tid;                  // declared type of each function argument: 0 = natural type of the bound register, 16 = Int16 (narrower than the register)
   std::vector<int> call10_ptype;             // marshalling call (fn 10): declared parameter types (bits, negative = signed) of its 10 parameters
+  std::vector<uint64_t> call10_mask;         // ... and the bits of each parameter slot that are defined (compared)
   int newval(Kind k, const std::string& n) { kinds.push_back(k); names.push_back(n); return int(kinds.size()) - 1; }
 };
 
@@ -356,7 +357,7 @@ static void interp(const Prog& p, const Input& in, uint64_t mem_ptr, Outcome& ou
             // same conversion rule as for function arguments: sign extension when both the register type and the parameter type are signed
             Kind sk = p.kinds[size_t(x)]; int pt = p.call10_ptype[ai];
             if (gp_signed(sk) && pt < 0) val = uint64_t(sx(val, gp_bits(sk)));
-            val &= bits_mask(pt < 0 ? -pt : pt);
+            val &= p.call10_mask[ai];
           }
           r.args.push_back(val);
         }
@@ -795,7 +796,7 @@ static bool run_case(const Prog& p, const CaseInfo& ci, const std::vector<Input>
     for (int i = 0; i < 8; i++) mem[i] = in.m[i];
     uint64_t args[16] = {uint64_t(uintptr_t(mem)), in.sel, in.cnt};
     for (int i = 0; i < 13; i++) args[3 + i] = in.a[i];
-    for (int i = 0; i < 10; i++) { int pt = i < int(p.call10_ptype.size()) ? p.call10_ptype[size_t(i)] : 64; g_call10_mask[i] = bits_mask(pt < 0 ? -pt : pt); }
+    for (int i = 0; i < 10; i++) g_call10_mask[i] = i < int(p.call10_mask.size()) ? p.call10_mask[size_t(i)] : ~0ull;
     g_calls.clear();
     NativeRun nr;
     c.n("traces")++;
@@ -1050,9 +1051,9 @@ struct Fill { int slot; int alpha; int pat; };
 struct Desc { int arch = 0 /* 0 x64 native, 1 x86-32 simulated, 2 AArch64 simulated */; int shape = 0, K = 0, n = 1, am = 6, vm = 0; std::vector<Fill> fills; int x = 0 /* shape specific extra parameter */; };
 static const char* const kArchName[] = {"x64", "x86", "a64"};
 
-enum { SH_STRAIGHT, SH_DIAMOND, SH_LOOP, SH_NESTED, SH_LOOPCOND, SH_IRREDUCIBLE, SH_JT3, SH_JT2, SH_CALLMID, SH_CALLLOOP, SH_TWOCALLS, SH_LOOPLOCAL_E, SH_LOOPLOCAL_L, SH_MARSHAL, SH_MANYARGS, SH__COUNT };
-static const char* const kShapeName[] = {"straight", "diamond", "loop", "nested-loop", "loop-cond", "irreducible", "jumptable3", "jumptable2", "call-mid", "call-loop", "two-calls", "loop-local-early", "loop-local-late", "call-args", "many-args"};
-static const int kShapeSlots[] = {2, 4, 4, 4, 4, 4, 4, 3, 2, 2, 3, 4, 4, 2, 2};
+enum { SH_STRAIGHT, SH_DIAMOND, SH_LOOP, SH_NESTED, SH_LOOPCOND, SH_IRREDUCIBLE, SH_JT3, SH_JT2, SH_CALLMID, SH_CALLLOOP, SH_TWOCALLS, SH_LOOPLOCAL_E, SH_LOOPLOCAL_L, SH_MARSHAL, SH_MANYARGS, SH_SWAPLOOP, SH__COUNT };
+static const char* const kShapeName[] = {"straight", "diamond", "loop", "nested-loop", "loop-cond", "irreducible", "jumptable3", "jumptable2", "call-mid", "call-loop", "two-calls", "loop-local-early", "loop-local-late", "call-args", "many-args", "swap-loop"};
+static const int kShapeSlots[] = {2, 4, 4, 4, 4, 4, 4, 3, 2, 2, 3, 4, 4, 2, 2, 2};
 
 enum { NEED_RDX = 1, NEED_AB_DISTINCT = 2, NEED_XMM_ONLY = 4, NEED_VEX = 8, NEED_NOT_Z = 16, NEED_BC_DISTINCT = 32, NEED_64 = 64, NEED_NATIVE = 128, NEED_3REGS = 256 };
 
@@ -1290,7 +1291,7 @@ void PB::slot(int s) {
 
 // ---- program construction -------------------------------------------------------------------------------
 static bool shape_uses_sel(int sh) { return sh == SH_DIAMOND || sh == SH_IRREDUCIBLE || sh == SH_JT3 || sh == SH_JT2; }
-static bool shape_uses_cnt(int sh) { return sh == SH_LOOPLOCAL_E || sh == SH_LOOPLOCAL_L || sh == SH_LOOP || sh == SH_NESTED || sh == SH_LOOPCOND || sh == SH_IRREDUCIBLE || sh == SH_CALLLOOP; }
+static bool shape_uses_cnt(int sh) { return sh == SH_SWAPLOOP || sh == SH_LOOPLOCAL_E || sh == SH_LOOPLOCAL_L || sh == SH_LOOP || sh == SH_NESTED || sh == SH_LOOPCOND || sh == SH_IRREDUCIBLE || sh == SH_CALLLOOP; }
 
 static void call(PB& b, int fn, int ret) {
   // AArch64 calls go through a register: 8 register arguments + the target need 9 allocatable registers
@@ -1433,10 +1434,33 @@ static bool build_prog(const Desc& d, PB& b) {
       b.I(O_LOAD, tv, -1, -1, kOff[ti], gp_bits(tk) / 8);
       b.slot(0);
       Ins& ci = b.I(O_CALL, r); ci.fn = 10;
-      p.call10_ptype.assign(10, 64);
-      for (int k = 0; k < 10; k++) { if (k == pos) { ci.args.push_back(tv); p.call10_ptype[size_t(k)] = kP[pi]; } else if (k == 5) ci.args.push_back(-1000 - 77); else ci.args.push_back(b.dv[size_t(k) % b.dv.size()]); }
+      p.call10_ptype.assign(10, 64); p.call10_mask.assign(10, ~0ull);
+      // A parameter passed on the stack is converted by the Compiler (move_reg_to_stack_arg): all bits of the parameter's type are
+      // compared.  A parameter passed in a register only constrains the physical register (no conversion; the repository test
+      // FuncCallRefArgs relies on that): the bits above the width of the source register are not defined and not compared.
+      int pbits = kP[pi] < 0 ? -kP[pi] : kP[pi];
+      for (int k = 0; k < 10; k++) { if (k == pos) { ci.args.push_back(tv); p.call10_ptype[size_t(k)] = kP[pi]; p.call10_mask[size_t(k)] = bits_mask(pos < 6 ? std::min(pbits, gp_bits(tk)) : pbits); } else if (k == 5) ci.args.push_back(-1000 - 77); else ci.args.push_back(b.dv[size_t(k) % b.dv.size()]); }
       b.slot(1);
       b.extra.push_back(r);
+      break;
+    }
+    case SH_SWAPLOOP: {
+      // fixed-register instructions put the first two values into rax / rcx before the loop and into rcx / rax inside it, so the
+      // back edge has to exchange them (in the mixed mode: a 64-bit and a 32-bit virtual register)
+      int lh = b.label(), lx = b.label();
+      int t = b.tmp("t"), k3 = p.newval(p.kinds[size_t(S)], "k" + std::to_string(p.kinds.size())), k5 = b.tmp("k"), h1 = p.newval(p.kinds[size_t(S)], "h" + std::to_string(p.kinds.size())), h2 = b.tmp("h");
+      b.I(O_MOVI, t, -1, -1, 1); b.I(O_MOVI, k3, -1, -1, 3); b.I(O_MOVI, k5, -1, -1, 5);
+      b.br(O_JZ, b.cnt, lx);
+      b.I(O_MUL, h1, S, k3);              // second value -> (e|r)ax
+      b.I(O_SHL, t, F);                   // first value  -> cl
+      b.bind(lh);
+      b.slot(0);
+      b.I(O_MUL, h2, F, k5);              // first value  -> rax
+      b.I(O_SHL, t, S);                   // second value -> cl
+      b.slot(1);
+      b.br(O_DECJNZ, b.cnt, lh);
+      b.bind(lx);
+      b.extra.push_back(t);
       break;
     }
     case SH_MANYARGS: {
@@ -1556,7 +1580,8 @@ static bool parse_desc(const std::string& text, Desc& d) {
 // main: enumeration
 // =========================================================================================================
 static long long g_idx = 0;
-static bool g_dry = false;   // --dry 1: count the programs of the tier without running them
+static bool g_dry = false;
+static std::map<std::string, long long> g_dry_counts;   // --dry 1: count the programs of the tier without running them
 static bool g_stop = false;
 static std::map<std::string, long long> g_shape_count;
 
@@ -1567,6 +1592,11 @@ static void run_one(const Desc& d, bool sample) {
   CaseInfo ci; ci.shape = kShapeName[d.shape]; ci.arch = kArchName[d.arch];
   for (const Fill& f : d.fills) ci.ops += (ci.ops.empty() ? "" : "+") + std::string(kAlpha[f.alpha].name);
   if (ci.ops.empty()) ci.ops = "-";
+  if (d.shape == SH_MARSHAL) {
+    static const char* const tn[] = {"int8", "uint8", "int16", "uint16", "int32", "uint32", "int64"}; static const char* const pn[] = {"int32", "uint32", "int64", "uint64"};
+    int ti = d.x / 100, pi = (d.x / 10) % 10, pos = d.x % 10;
+    if (ti >= 0 && ti < 7 && pi >= 0 && pi < 4) ci.ops = std::string(tn[ti]) + ">" + pn[pi] + (pos < 6 ? "@reg" : "@stack") + (ci.ops == "-" ? "" : "+" + ci.ops);
+  }
   ci.replay = "harness=c05_ra\n" + desc_str(d) + "\n";
   ci.body = desc_str(d) + " :: " + prog_str(b.p, b.body_from, b.body_to);
   static std::map<int, std::vector<Input>> cache;
@@ -1650,7 +1680,7 @@ static void run_desc(const Desc& d) {
   c.violation(rep.key, rep.desc, rep.replay);
 }
 
-struct Config { int K, n, am, vm; int arch = 0; int x = 0; bool no_fills = false; };
+struct Config { int K, n, am, vm; int arch = 0; int x = 0; bool no_fills = false; unsigned pats = 0x1F; };
 
 // operand index tuple of (alpha, pat) for dedup of patterns that select the same operands
 static std::array<int, 3> op_tuple(const Alpha& al, int pat, const Desc& d) {
@@ -1686,10 +1716,10 @@ static void enumerate(const std::vector<Config>& cfgs, int k, const std::vector<
   for (const Config& cf : cfgs) for (int sh : shapes) {
     Desc d; d.arch = cf.arch; d.shape = sh; d.K = cf.K; d.n = cf.n; d.am = cf.am; d.vm = cf.vm; d.x = cf.x;
     if (cf.arch != 0 && (sh == SH_JT3 || sh == SH_JT2)) continue;   // indirect jumps are outside the simulator
-    std::vector<Fill> fl; if (!cf.no_fills) fl = fills_for(d, pat_mask);
+    std::vector<Fill> fl; if (!cf.no_fills) fl = fills_for(d, pat_mask & cf.pats);
     auto one = [&](const Desc& dd) {
       if (g_stop) return;
-      if (g_dry) { g_idx++; return; }
+      if (g_dry) { g_idx++; g_dry_counts[std::string(kArchName[dd.arch]) + " vm=" + std::to_string(dd.vm) + " K=" + std::to_string(dd.K) + " n=" + std::to_string(dd.n) + " args=" + std::to_string(dd.am) + (dd.shape >= SH_MARSHAL ? std::string(" ") + kShapeName[dd.shape] : std::string(""))]++; return; }
       if (!c.mine(g_idx++)) return;
       if ((c.n("evaluations") & 63) == 0 && c.out_of_time()) { g_stop = true; return; }
       if (c.n("hangs") >= 10) { c.exhaustive = false; c.note("exploration of this shard stopped after 10 non-terminating programs (each costs seconds)"); g_stop = true; return; }
@@ -1727,7 +1757,7 @@ int main(int argc, char** argv) {
   }
 
   g_dry = c.opt("dry") == "1";
-  std::vector<int> all_shapes; for (int i = 0; i < SH__COUNT; i++) if (i != SH_MARSHAL && i != SH_MANYARGS) all_shapes.push_back(i);
+  std::vector<int> all_shapes; for (int i = 0; i < SH__COUNT; i++) if (i != SH_MARSHAL && i != SH_MANYARGS && i != SH_SWAPLOOP) all_shapes.push_back(i);
   std::vector<Config> cfg1, cfg2;
   std::string bound;
   auto add_k = [&](std::vector<Config>& v, int K, std::initializer_list<int> ams) {
@@ -1741,11 +1771,14 @@ int main(int argc, char** argv) {
   };
   if (!c.thorough()) {
     add_k(cfg1, 3, {6, 10});
-    cfg1.push_back(Config{0, 20, 6, 0}); cfg1.push_back(Config{0, 70, 10, 0}); cfg1.push_back(Config{0, 130, 6, 0});
+    for (size_t i = 0; i < cfg1.size(); i++) if (cfg1[i].am == 10 && cfg1[i].n <= 3) { cfg1.erase(cfg1.begin() + long(i)); i--; }   // the smallest pressures only with 6 arguments
+    for (Config& cf : cfg1) if (cf.am == 10) cf.pats = 0x0B;   // 10-argument variants: three of the five operand patterns
+    cfg1.push_back(Config{0, 20, 6, 0});
+    { Config c70{0, 70, 10, 0}; c70.pats = 0x01; cfg1.push_back(c70); Config c130{0, 130, 6, 0}; c130.pats = 0x01; cfg1.push_back(c130); }   // large programs: operand patterns first-second-last (+ same-twice)
     add_vec(cfg1, 3, 3); add_vec(cfg1, 0, 20);
-    cfg1.push_back(Config{3, 2, 6, 5}); cfg1.push_back(Config{3, 4, 10, 5}); cfg1.push_back(Config{0, 20, 6, 5});
+    cfg1.push_back(Config{3, 2, 6, 5}); { Config a{3, 4, 10, 5}; a.pats = 0x0B; cfg1.push_back(a); } { Config w{0, 20, 6, 5}; w.pats = 0x09; cfg1.push_back(w); }
     cfg1.push_back(Config{3, 2, 6, 6}); cfg1.push_back(Config{3, 3, 6, 6}); cfg1.push_back(Config{3, 5, 10, 6}); cfg1.push_back(Config{0, 20, 6, 6});   // mixed 64/32-bit values
-    cfg1.push_back(Config{3, 2, 6, 5, 1}); cfg1.push_back(Config{3, 4, 10, 5, 1}); cfg1.push_back(Config{0, 10, 6, 5, 1});
+    cfg1.push_back(Config{3, 2, 6, 5, 1}); { Config a{3, 4, 10, 5, 1}; a.pats = 0x0B; cfg1.push_back(a); Config b2{0, 10, 6, 5, 1}; b2.pats = 0x09; cfg1.push_back(b2); }
     cfg1.push_back(Config{3, 2, 6, 0, 2}); cfg1.push_back(Config{3, 4, 10, 0, 2}); cfg1.push_back(Config{0, 20, 6, 0, 2}); cfg1.push_back(Config{0, 36, 10, 0, 2});
     bound = "k<=1 slot; x64 native: K=3 with total GP pressure {2,3,4,6} (= data values + buffer pointer; loop counters/selectors/call targets on top) x args {6, 10 (4 on the stack)}; full file with 20 (6 args), 70 (10 args) and 130 (6 args) data values; "
             "xmm/ymm/zmm/k-mask value modes at K=3 (vector file 3, mask file 2; 4 vector / 3 mask values) and full file (18/18/34 vector, 9 mask values); 32-bit virtual registers at K=3 (pressure 3, 5) and full file (20); "
@@ -1780,12 +1813,21 @@ int main(int argc, char** argv) {
     if (!g_stop) enumerate(mc, 1, {SH_MARSHAL});
     // many arguments + aligned stack variable + call with stack arguments
     std::vector<Config> ma;
-    for (int K : {0, 3}) for (int n : {15, 20}) { if (K == 3 && n == 20) continue; ma.push_back(Config{K, n, 16, 0}); ma.push_back(Config{K, n, 16, 5}); Config nw{K, n, 16, 5}; nw.x = 1; ma.push_back(nw); nw.x = 3; ma.push_back(nw); }
+    for (int K : {0, 3}) for (int n : {15, 20}) {
+      if (K == 3 && n == 20) continue;
+      if (!c.thorough() && K == 0 && n == 15) continue;
+      Config a0{K, n, 16, 0}, a5{K, n, 16, 5}, a1{K, n, 16, 5}, a3{K, n, 16, 5}; a1.x = 1; a3.x = 3;
+      for (Config* cf : {&a0, &a5, &a1, &a3}) { if (!c.thorough()) cf->pats = 0x01; ma.push_back(*cf); }
+    }
     if (!g_stop) enumerate(ma, 1, {SH_MANYARGS});
+    // register exchange at a loop back edge
+    std::vector<Config> sw;
+    for (int vm : {6, 0, 5}) for (int K : {0, 4, 3}) for (int n : {2, 3, 5}) { if (!c.thorough() && vm != 6 && !(K == 0 && n == 3)) continue; sw.push_back(Config{K, n, 6, vm}); }
+    if (!g_stop) enumerate(sw, 1, {SH_SWAPLOOP});
   }
   long long n1 = c.n("evaluations");
   if (!cfg2.empty() && !g_stop) enumerate(cfg2, 2, all_shapes, 0x0B);
-  if (g_dry) { printf("programs in this tier: %lld\n", g_idx); return 0; }
+  if (g_dry) { for (auto& kv : g_dry_counts) printf("%8lld  %s\n", kv.second, kv.first.c_str()); printf("programs in this tier: %lld\n", g_idx); return 0; }
   c.n("programs_k1") = n1; c.n("programs_k2") = c.n("evaluations") - n1;
   c.n("states") = c.n("evaluations");
   c.n("transitions") = c.n("traces");
